@@ -157,8 +157,16 @@ def one(case, pl):
     for k, r in c["reward"].items():
         s, a, ns = map(int, k.split(","))
         rew[(S[s], A[a], S[ns])] = fl(r)
+    if case.get("int_rewards"):            # integer-valued rewards as Python ints
+        rew = {k: (int(v) if float(v).is_integer() else v) for k, v in rew.items()}
     seq = list if case.get("actions_as_list") else tuple
     acts = {S[s]: seq(A[a] for a in al) for s, al in enumerate(c["actions"])}
+    if case.get("share_objects"):
+        # ONE list object for all states with the same actions, ONE distribution object for all equal rows
+        pool = {}
+        acts = {s: pool.setdefault(tuple(v), v) for s, v in acts.items()}
+        dpool = {}
+        trans = {k: dpool.setdefault(tuple(d.items()), d) for k, d in trans.items()}
     absb = {S[s]: bool(x) for s, x in enumerate(c["absorbing"])}
     init = DictDistribution({S[s]: fl(p) for s, p in c["init"]})
     gamma = int(Fraction(c["gamma"])) if case.get("gamma_int") else fl(c["gamma"])
@@ -180,8 +188,16 @@ def one(case, pl):
             m._action_list = eseq(A[i] for i in case["explicit_actions"])
         return m
 
+    def snapshot():
+        snap = {"trans": {k: list(d.items()) for k, d in trans.items()}, "acts": {k: list(v) for k, v in acts.items()},
+                "acts_types": {k: type(v).__name__ for k, v in acts.items()}, "init": list(init.items()),
+                "rew": dict(rew), "absb": dict(absb)}
+        return snap
+    snap0 = snapshot()
     res = {}
     mdp = mk()
+    user_lists = {"states": getattr(mdp, "_state_list", None), "actions": getattr(mdp, "_action_list", None)}
+    user_lists0 = {k: (type(v).__name__, list(v)) if v is not None else None for k, v in user_lists.items()}
     # reachability first (cached under the same key state_list uses), with pop order
     runs = []
     for k in case.get("reach_order") or ([None] + list(case.get("cutoffs", []))):
@@ -240,16 +256,31 @@ def one(case, pl):
             return np.array([[[fl(v) for v in r] for r in mm] for mm in x], dtype=float).reshape(
                 (len(raw["sl"]), len(raw["al"]), len(raw["sl"])))
 
+        dt = {"float32": np.float32, "int": np.int64}.get(case.get("raw_dtype"), float)
+        raw_in = {}
+
         def build_raw():
             conv = {"list": list, "tuple": tuple}.get(case.get("fm_lists"), list)
-            return TabularMarkovDecisionProcess.from_matrices(
+            raw_in.update(
                 state_list=conv(S[i] for i in raw["sl"]), action_list=conv(A[j] for j in raw["al"]),
-                initial_state_vec=np.array([fl(v) for v in raw["s0"]], dtype=float),
-                transition_matrix=fa(raw["tf"]),
-                action_matrix=np.array([[fl(v) for v in r] for r in raw["am"]], dtype=float).reshape((len(raw["sl"]), len(raw["al"]))),
-                reward_matrix=fa(raw["rf"]),
-                absorbing_state_vec=np.array(raw["abs"], dtype=bool),
-                discount_rate=gamma)
+                initial_state_vec=np.array([fl(v) for v in raw["s0"]], dtype=float).astype(dt),
+                transition_matrix=fa(raw["tf"]).astype(dt),
+                action_matrix=np.array([[fl(v) for v in r] for r in raw["am"]], dtype=float).reshape((len(raw["sl"]), len(raw["al"]))).astype(dt),
+                reward_matrix=fa(raw["rf"]).astype(dt),
+                absorbing_state_vec=np.array(raw["abs"], dtype=bool))
+            raw_in["copy"] = {k: (list(v) if isinstance(v, (list, tuple)) else v.copy()) for k, v in raw_in.items()}
+            return TabularMarkovDecisionProcess.from_matrices(discount_rate=gamma, **{k: v for k, v in raw_in.items() if k != "copy"})
+
+        def raw_inputs_mutated():
+            out = []
+            for k, v0 in raw_in.get("copy", {}).items():
+                v = raw_in[k]
+                if isinstance(v0, list):
+                    if list(v) != v0:
+                        out.append(k)
+                elif not (np.array_equal(v, v0) and v.dtype == v0.dtype and v.flags.writeable):
+                    out.append(k)
+            return out
 
         def funcs_of(mm):
             out = {}
@@ -293,6 +324,7 @@ def one(case, pl):
                     res["raw_plan"]["rebuilt"] = guarded(lambda: plan(mrr, sid, aid, case["vi"]))
                 if not isinstance(mrq, dict):
                     res["raw_plan"]["quick"] = guarded(lambda: plan(mrq, sid, aid, case["vi"]))
+            res["raw_inputs_mutated"] = guarded(raw_inputs_mutated)
 
     # quick constructors wrapping the five functions (fresh un-instrumented source object)
     src = TableMDP(dict(tb, log=[]))
@@ -410,7 +442,50 @@ def one(case, pl):
             pl_ = ValueIteration(max_iterations=int(vi["max_iterations"]), max_residual=fl(vi["max_residual"]))
             return [guarded(lambda: plan(x, sid, aid, vi, planner=pl_)) for x in ([m2] if not isinstance(m2, dict) else []) + [mdp]]
         res["plan"]["shared"] = guarded(shared)
+    # (5) one planner object for every case of this process (different sizes / labels), against a fresh one
+    if vi:
+        def global_shared():
+            from msdm.algorithms.valueiteration import ValueIteration
+            key = (int(vi["max_iterations"]), vi["max_residual"])
+            if key not in _GLOBAL_PLANNER:
+                _GLOBAL_PLANNER[key] = ValueIteration(max_iterations=key[0], max_residual=fl(key[1]))
+            return plan(mdp, sid, aid, vi, planner=_GLOBAL_PLANNER[key])
+        res["plan"]["global_shared"] = guarded(global_shared)
+    # the same problem constructed again after all the unrelated constructions above, and the FIRST object's
+    # views re-read after that
+    late = mk()
+    res["late"] = {"new_object": view(late, sid, aid), "first_object_again": view(mdp, sid, aid)}
+    # (4) nothing the caller handed over may have been changed
+    snap1 = snapshot()
+    mutated = [k for k in snap0 if snap0[k] != snap1[k]]
+    user_lists1 = {k: (type(v).__name__, list(v)) if v is not None else None for k, v in user_lists.items()}
+    if user_lists1 != user_lists0:
+        mutated.append("explicit_lists")
+    res["inputs_mutated"] = mutated
+    bc = case.get("big_chain")
+    if bc:
+        res["big_chain"] = guarded(lambda: big_chain(bc))
     return res
+
+
+_GLOBAL_PLANNER = {}
+
+
+def big_chain(bc):
+    """reachability and list inference on a corridor of more than 1000 states (no arrays: n^3 entries)"""
+    from msdm.core.mdp.quickmdp import QuickTabularMDP
+    from msdm.core.distributions import DictDistribution
+    L = bc["L"]
+    m = QuickTabularMDP(next_state_dist=lambda s, a: DictDistribution({min(s + 1, L - 1): 0.75, s: 0.25}) if s < L - 1 else DictDistribution({s: 1.0}),
+                        reward=-1, actions=lambda s: ("go",) if s % 2 else ("go", "run"), initial_state_dist=DictDistribution({0: 1.0}),
+                        is_absorbing=lambda s: s == L - 1, discount_rate=1.0)
+    out = {"cut": [len(m.reachable_states(max_states=k)) for k in bc["cutoffs"]]}
+    full = m.reachable_states()
+    out["full"] = len(full)
+    out["full_ok"] = full == set(range(L))
+    out["state_list_ok"] = list(m.state_list) == list(range(L))
+    out["action_list"] = list(m.action_list)
+    return out
 
 
 if __name__ == "__main__":
